@@ -91,9 +91,12 @@ fn gen_s1(r: &mut Rng, al: &[(u8, A)], all_true: bool, identity: bool) -> Vec<S1
     out
 }
 
-fn gen_cred(r: &mut Rng, csprng: &mut StdRng, global: &GlobalContext<ArCurve>, idp: &Idp, identity: bool, all_true: bool, network: Network) -> Cred {
-    let al = gen_alist_pub(r, true);
-    let ss = gen_s1(r, &al, all_true, identity);
+fn gen_cred(r: &mut Rng, csprng: &mut StdRng, global: &GlobalContext<ArCurve>, idp: &Idp, identity: bool, all_true: bool, network: Network,
+            preset: Option<(Vec<(u8, A)>, Vec<S1>)>) -> Cred {
+    let (al, ss) = match preset {
+        Some(x) => x,
+        None => { let al = gen_alist_pub(r, true); let ss = gen_s1(r, &al, all_true, identity); (al, ss) }
+    };
     if identity {
         let id_use = idtest::test_create_id_use_data(csprng);
         let (_ctx, pio, _) = idtest::test_create_pio_v1(&id_use, &idp.ip_info, &idp.ars.anonymity_revokers, global, 3, csprng);
@@ -151,12 +154,33 @@ pub fn run(seed: u64, n: u64) {
     let idp_other = mk_idp(&mut csprng, 3);
     let now = chrono::DateTime::parse_from_rfc3339("2024-02-29T12:00:00Z").unwrap().to_utc();
     let mut ties = 0;
-    for i in 0..n {
-        let ncred = if i % 4 == 3 { 2 } else { 1 };
+    // fixed corpus: attribute-value ("equals") statements, true and false, revealed and committed
+    let dk = || A::S("DK".into());
+    let base_al = || vec![(1u8, A::N(42)), (2u8, dk()), (3u8, A::S("19970505".into()))];
+    let corpus: Vec<(bool, Vec<S1>)> = vec![
+        (true, vec![S1::Value(1, A::N(42))]),
+        (true, vec![S1::Value(1, A::N(43))]),
+        (true, vec![S1::Value(2, A::S("DE".into()))]),
+        (true, vec![S1::Value(1, A::N(43)), S1::Base(St::Range(1, A::N(40), A::N(50)))]),
+        (true, vec![S1::Value(2, dk()), S1::Base(St::In(2, vec![dk(), A::S("NO".into())]))]),
+        (true, vec![S1::Value(2, dk()), S1::Value(1, A::N(41))]),
+        (true, vec![S1::Base(St::Range(3, A::S("19970505".into()), A::S("19970506".into()))), S1::Base(St::NotIn(2, vec![A::S("DE".into())]))]),
+        (true, vec![S1::Base(St::Range(3, A::S("19970404".into()), A::S("19970505".into())))]),
+        (false, vec![S1::Value(1, A::N(43))]),
+        (false, vec![S1::Value(1, A::T(1u64 << 40))]),
+        (false, vec![S1::Value(1, A::N(42)), S1::Value(2, A::S("dk".into()))]),
+        (false, vec![S1::Base(St::Range(1, A::N(42), A::N(43))), S1::Base(St::In(2, vec![A::S("NO".into())]))]),
+    ];
+    let ncorpus = corpus.len() as u64;
+    for i in 0..(n + ncorpus) {
+        let ncred = if i >= ncorpus && i % 4 == 3 { 2 } else { 1 };
         let all_true = i % 3 != 2;
         let network = if r.chance(1, 2) { Network::Testnet } else { Network::Mainnet };
-        let mut creds: Vec<Cred> = (0..ncred).map(|j| gen_cred(&mut r, &mut csprng, &global, &idp, (i + j) % 2 == 1, all_true, network)).collect();
-        let want_tie = ties < 3 && matches!(creds[0], Cred::Account { .. });
+        let mut creds: Vec<Cred> = (0..ncred).map(|j| {
+            if i < ncorpus { let (idc, ss) = corpus[i as usize].clone(); gen_cred(&mut r, &mut csprng, &global, &idp, idc, all_true, network, Some((base_al(), ss))) }
+            else { gen_cred(&mut r, &mut csprng, &global, &idp, (i + j) % 2 == 1, all_true, network, None) }
+        }).collect();
+        let want_tie = i >= ncorpus && ties < 3 && matches!(creds[0], Cred::Account { .. });
         if want_tie { if let Cred::Account { ss, al, .. } = &mut creds[0] { ss.insert(0, S1::Value(al[0].0, al[0].1.clone())); ties += 1; } }
         let bh = block_hash(&mut r);
         let nonce = { let b = r.bytes(32); let mut a = [0u8; 32]; a.copy_from_slice(&b); Nonce(a) };
